@@ -233,6 +233,74 @@ def run_truncation(t: Dict[str, Any]) -> Dict[str, Any]:
     return _result(t, viol, probes, evlog=["truncate", cut, len(data), t["plugin"], t["position"], [v["sig"] for v in viol]])
 
 
+def run_cli_merge(t: Dict[str, Any]) -> Dict[str, Any]:
+    """Merge through the real command line: `--model f1 f2 ..` (file names deliberately NOT in sorted
+    order, later files with another metaData.version) must give the plugin exactly what the single
+    file holding the in-order concatenation gives it — observed through the plugin's output."""
+    init()
+    probes = _probes()
+    r = core.rng(t["run_seed"], "cli-merge")
+    doc = _sub_for_gate(t["sub_seed"])
+    parts = models.split(doc, r, t["k"])
+    for i, p_ in enumerate(parts[1:]):
+        p_["metaData"] = {"version": f"9.{i}.later-file"}
+    want = models.merge_reference(parts)
+    names = ["zz-first.json", "mm-second.json", "aa-third.json", "kk-fourth.json"][: t["k"]]
+    w = gw.World(f"c18m-{t['run_seed']}")
+    viol: List[Dict[str, str]] = []
+    try:
+        d = w.path("models")
+        d.mkdir(parents=True)
+        files = []
+        for nm, p_ in zip(names, parts):
+            (d / nm).write_bytes(models.dumps(p_))
+            files.append(str(d / nm))
+        (d / "merged.json").write_bytes(models.dumps(want))
+        env = gw.env_for(0, "", random.Random(0), default=True)
+        r1 = gw.run_generator(w, t["plugin"], str(w.path("out_parts")), str(w.path("td1")), files, env)
+        r2 = gw.run_generator(w, t["plugin"], str(w.path("out_merged")), str(w.path("td2")), [str(d / "merged.json")], env)
+        probes["cli_merge_runs"] += 1
+        if r2["rc"] != 0:
+            return _result(t, [], probes, skipped=f"plugin cannot generate the merged model: {_exc_class(r2['stderr_tail'])}")
+        if r1["rc"] != 0:
+            viol.append({"sig": f"cli-merge-failed:{_exc_class(r1['stderr_tail'])}", "msg": f"`--model {' '.join(names)}` exits {r1['rc']} although the single merged file generates fine"})
+        else:
+            df = gw.diff_trees(gw.owned_files(t["plugin"], w.path("out_merged")), gw.owned_files(t["plugin"], w.path("out_parts")))
+            if df:
+                viol.append({"sig": f"cli-merge-differs:{t['plugin']}", "msg": f"`--model {' '.join(names)}` does not give plugin {t['plugin']} the first model extended in order by the others: {df[1][:300]}"})
+    finally:
+        w.destroy()
+    return _result(t, viol, probes, evlog=["cli-merge", t["k"], t["plugin"], [v["sig"] for v in viol]])
+
+
+def run_gate_multi(t: Dict[str, Any]) -> Dict[str, Any]:
+    """Many schema violations at once (counts around powers of two): the command must still fail."""
+    init()
+    ref: schema.Ref = G["ref"]
+    probes = _probes()
+    doc = _sub_for_gate(t["sub_seed"])
+    n = t["n"]
+    doc["structures"].append({"name": "SimManyProps", "properties": [{"name": f"p{i}", "type": {"kind": "base", "name": "string"}, "optional": True} for i in range(max(n, 4) + 3)]})
+    if not ref.is_valid(doc):
+        return _result(t, [], probes, skipped="multi-violation base document invalid")
+    for i in range(n):
+        doc["structures"][-1]["properties"][i]["optional"] = "true"  # wrong JSON type, one error each
+    n_err = sum(1 for _ in ref.validator.iter_errors(doc))
+    probes["multi_violation_docs"] += 1
+    w = gw.World(f"c18x-{t['run_seed']}")
+    try:
+        good = _sub_for_gate(t["sub_seed"] + 1)
+        order = [doc] if t["position"] == "single" else ([doc, good] if t["position"] == "first" else [good, doc])
+        files = w.write_models("m", [models.dumps(x) for x in order])
+        viol = gate_check(w, t["plugin"], files, t["prepopulate"], t["run_seed"], "schema-invalid", probes)
+    finally:
+        w.destroy()
+    for v in viol:
+        v["sig"] += ":multi"
+        v["msg"] += f" [{n} simultaneous violations = {n_err} schema errors, position={t['position']}]"
+    return _result(t, viol, probes, evlog=["multi", n, n_err, t["plugin"], t["position"], [v["sig"] for v in viol]])
+
+
 def gen_gate_tasks(seed: int, tier: str) -> List[Dict[str, Any]]:
     init()
     tasks = []
@@ -264,6 +332,17 @@ def gen_gate_tasks(seed: int, tier: str) -> List[Dict[str, Any]]:
         rs = core.derive(seed, PROP, "truncate", i)
         tasks.append({"kind": "truncation", "run_seed": rs, "frac": (i + 0.5) / n_cut, "plugin": gw.PLUGINS[i % 4], "position": "second" if i % 3 == 2 else "single",
                       "sub_seed": core.derive(seed, PROP, "truncate-model") % 2**40, "prepopulate": i % 3})
+    # several violations at once, counts around powers of two (exit statuses wrap at 256)
+    counts = [2, 3, 255, 256, 257, 512] if tier == "quick" else [2, 3, 7, 64, 127, 128, 129, 255, 256, 257, 511, 512, 513, 768, 1024, 4096]
+    for i, n in enumerate(counts):
+        for j, pos in enumerate(["single", "first", "second"] if tier != "quick" else [["single", "first", "second"][i % 3]]):
+            rs = core.derive(seed, PROP, "gate-multi", n, pos)
+            tasks.append({"kind": "gate_multi", "run_seed": rs, "n": n, "plugin": gw.PLUGINS[(i + j) % 4], "position": pos,
+                          "sub_seed": core.derive(rs, "sub") % 2**40, "prepopulate": (i + j) % 3})
+    # merge through the real command line (valid files): argv order, first file's metaData
+    for i in range(8 if tier == "quick" else 120):
+        rs = core.derive(seed, PROP, "cli-merge", i)
+        tasks.append({"kind": "cli_merge", "run_seed": rs, "k": 2 + i % 3, "plugin": ["python", "rust", "python", "dotnet"][i % 4], "sub_seed": core.derive(rs, "sub") % 2**40})
     # unreadable model files
     for i, (p, how) in enumerate([(p, how) for p in gw.PLUGINS for how in ("enoent", "eio", "directory")]):
         rs = core.derive(seed, PROP, "gate-unreadable", i)
@@ -435,7 +514,7 @@ def _probes() -> Dict[str, int]:
     return {k: 0 for k in ["loads", "readbacks", "merges", "merge_files", "compares", "node_compares", "equal_pairs_judged", "unequal_pairs_judged",
                            "annotation_only_pair", "alias_compared", "flip_kept_valid", "fault_schema_invalid", "fault_not_json", "gate_invocations",
                            "gate_prepopulated", "second_file_bad", "violation_class_fired", "edits_applied", "edits_with_rare_kinds", "load_rejected_valid",
-                           "plugin_probe_unavailable", "reloads_same_objects", "first_file_bad", "default_model_bad", "truncation_points", "cross_class_compares", "twin_nodes_built", "merge_with_duplicates", "merge_with_empty_section", "merge_same_object_twice", "unreadable_enoent", "unreadable_eio", "unreadable_directory", "metadata_first_file"]}
+                           "plugin_probe_unavailable", "reloads_same_objects", "first_file_bad", "default_model_bad", "truncation_points", "cli_merge_runs", "multi_violation_docs", "cross_class_compares", "twin_nodes_built", "merge_with_duplicates", "merge_with_empty_section", "merge_same_object_twice", "unreadable_enoent", "unreadable_eio", "unreadable_directory", "metadata_first_file"]}
 
 
 def _result(t: Dict[str, Any], viol: List[Dict[str, str]], probes: Dict[str, int], skipped: Optional[str] = None, evlog: Any = None) -> Dict[str, Any]:
@@ -782,6 +861,10 @@ def worker_run(t: Dict[str, Any]) -> Dict[str, Any]:
             return run_directed(t)
         if t["kind"] == "truncation":
             return run_truncation(t)
+        if t["kind"] == "cli_merge":
+            return run_cli_merge(t)
+        if t["kind"] == "gate_multi":
+            return run_gate_multi(t)
         return run_gate_unreadable(t)
     except core.HarnessError as e:
         return {"run_seed": t.get("run_seed"), "kind": t.get("kind"), "violations": [], "harness": str(e), "probes": {}, "digest": "harness"}
@@ -939,7 +1022,7 @@ def main(argv: List[str]) -> int:
                 det_checked += 1
                 if r.get("digest") != by_seed[sample[i]].get("digest"):
                     det_mismatch += 1
-                    rep.harness_error(f"determinism: run_seed={sample[i]} digest {by_seed[sample[i]].get('digest')} then {r.get('digest')}")
+                    rep.harness_error(f"determinism: run_seed={sample[i]} digest {by_seed[sample[i]].get('digest')} then {r.get('digest')}", soft=True)
         except core.HarnessError as e:
             rep.harness_error(str(e))
 
@@ -965,7 +1048,7 @@ def main(argv: List[str]) -> int:
 
             p = subprocess.run([sys.executable, "-m", "sim.c18", "--replay", str(path)], cwd=str(core.VERIF), capture_output=True, text=True, timeout=1800)
             if p.returncode != core.EXIT_VIOLATION:
-                rep.harness_error(f"replay file {path} did not reproduce in a fresh process: rc={p.returncode} {p.stdout[-300:]}")
+                rep.harness_error(f"replay file {path} did not reproduce in a fresh process: rc={p.returncode} {p.stdout[-300:]}", soft=True)
 
     wall = time.monotonic() - t0
     probes: Dict[str, int] = {}
@@ -994,7 +1077,7 @@ def main(argv: List[str]) -> int:
         "run_kinds": kinds,
         "violation_classes_total": classes_total,
         "violation_classes_fired": classes_fired,
-        "faults_fired": {k: probes.get(k, 0) for k in ["fault_not_json", "fault_schema_invalid", "flip_kept_valid", "second_file_bad", "first_file_bad", "default_model_bad", "truncation_points", "cross_class_compares", "twin_nodes_built", "merge_with_duplicates", "merge_with_empty_section", "merge_same_object_twice", "violation_class_fired",
+        "faults_fired": {k: probes.get(k, 0) for k in ["fault_not_json", "fault_schema_invalid", "flip_kept_valid", "second_file_bad", "first_file_bad", "default_model_bad", "truncation_points", "cli_merge_runs", "multi_violation_docs", "cross_class_compares", "twin_nodes_built", "merge_with_duplicates", "merge_with_empty_section", "merge_same_object_twice", "violation_class_fired",
                                                         "unreadable_enoent", "unreadable_eio", "unreadable_directory", "gate_prepopulated"]},
         "probes": probes,
         "skipped": skipped,
